@@ -452,7 +452,7 @@ int cms_encrypted_data_to_der(
 			enced_content, enced_content_len,
 			shared_info1, shared_info1_len,
 			shared_info2, shared_info2_len,
-			NULL, &len) != 1) {
+			out, outlen) != 1) {
 		error_print();
 		return -1;
 	}
